@@ -467,14 +467,26 @@ theorem root_not_called (g : Graph) (fails : Kind → Bool) (fuel : Nat) (target
 
 /-! ## the observer splice and `enforce_invariants` -/
 
-theorem attachObservers_nodes : ∀ (obs : List Nat) (g : Graph) (enew child : Nat) (prev : Option Nat),
-    (attachObservers g enew child obs prev).nodes = g.nodes ++ obs.map Kind.observer
-  | [], g, _, _, prev => by
-    cases prev <;> simp [attachObservers, addEdge]
-  | o :: rest, g, enew, child, prev => by
-    simp only [attachObservers, addNode]
-    rw [attachObservers_nodes rest]
-    cases prev <;> simp [addEdge]
+/-- **C06 (k) — the chain the splice builds is the registration order.** For every graph and every handler
+    child in front of which nothing is inlined yet: after `attachObservers` (↔ the `for error_observer_id`
+    loop and the final happens-before edge), the chain of output-less nodes that the generated code inlines in
+    front of `child` (`chainOf`, what `observers_once_in_order` says runs) consists of the observers `obs`,
+    in that order. -/
+theorem spliced_chain_is_registration_order (g : Graph) (hc : Closed g) (enew child : Nat)
+    (hchild : child < g.size) (hub : unitBefores g child = []) (obs : List Nat) :
+    let g' := attachObservers g enew child obs none
+    (chainOf g' g'.size child).map (fun n => observerId (g'.kind n)) = obs.map some := by
+  intro g'
+  obtain ⟨h1, h2⟩ := attachObservers_chain g hc enew child hchild hub obs
+  show (chainOf g' g'.size child).map _ = _
+  rw [h1]
+  apply List.ext_getElem
+  · simp
+  · intro i hi1 hi2
+    simp only [List.length_map, List.length_range] at hi1
+    simp only [List.getElem_map, List.getElem_range]
+    rw [h2 i hi1]
+    rfl
 
 /-- the splice adds exactly one observer node per observer and per error handler it fires for, and no
     other node. -/
